@@ -24,7 +24,7 @@ def impl_obs(rep):
         coqstr(rep.get("errk", "")), coqstr(rep.get("errmsg", "")), coqstr(rep.get("out", "")))
 
 
-def run_programs(chk, programs, cmp_msg=False, repeat=1, fuel=None, tag=None, stdin=""):
+def run_programs(chk, programs, cmp_msg=False, repeat=1, fuel=None, tag=None, stdin="", prelude=""):
     """programs: list of source strings. Returns list of dicts:
        {src, impl, verdict}, verdict in agree|disagree|fuel|unsup|syntax|panic|nocoq (+ model on disagree)."""
     tag = tag or chk.pid
@@ -32,8 +32,10 @@ def run_programs(chk, programs, cmp_msg=False, repeat=1, fuel=None, tag=None, st
     if not ok:
         raise pv.BuildError("gen/World.v does not compile (world translator output rejected by Coq):\n" + log[-3000:])
     chk.cov["world"] = info
-    reqs = [{"src": s, "coq": True, "repeat": repeat, "stdin": stdin} for s in programs]
+    reqs = [{"src": s, "coq": True, "repeat": repeat, "stdin": stdin, "prelude": prelude} for s in programs]
+    chk.note("world ready; evaluating %d programs with the implementation" % len(programs))
     reps = pv.harness("eval", reqs, shards=pv.NCPU)
+    chk.note("implementation done; evaluating the model inside Coq")
     results = []
     todo = []
     for i, (s, r) in enumerate(zip(programs, reps)):
@@ -49,15 +51,22 @@ def run_programs(chk, programs, cmp_msg=False, repeat=1, fuel=None, tag=None, st
             todo.append(i)
         results.append(d)
     fuel_t = "default_fuel" if fuel is None else "%d" % fuel
+    precoq = "[]"
+    for r in reps:
+        if r.get("precoq"):
+            precoq = r["precoq"]
+            break
+    base_def = ("Definition base := run_prelude W init0 %s %s.\n" % (fuel_t, precoq))
     cm = "true" if cmp_msg else "false"
     shards = pv.shard(todo, pv.NCPU)
     bodies = []
     for k, sh in enumerate(shards):
         rows = ["(%d, %s, %s)" % (i, results[i]["impl"]["coq"], impl_obs(results[i]["impl"])) for i in sh]
-        body = (PRELUDE + "Definition cases : list case := [\n" + ";\n".join(rows) + "].\n"
-                "Definition J := Eval vm_compute in judge W init0 %s %s cases.\nPrint J.\n" % (fuel_t, cm))
+        body = (PRELUDE + base_def + "Definition cases : list case := [\n" + ";\n".join(rows) + "].\n"
+                "Definition J := Eval vm_compute in judge W base %s %s cases.\nPrint J.\n" % (fuel_t, cm))
         bodies.append(("cases_%s_%d" % (tag, k), body))
     outs = pv.coq_eval_many(bodies, timeout=1200)
+    chk.note("model done")
     names = {0: "agree", 1: "disagree", 2: "fuel", 3: "unsup"}
     for (name, body), (rc, out) in zip(bodies, outs):
         if rc != 0:
@@ -72,8 +81,8 @@ def run_programs(chk, programs, cmp_msg=False, repeat=1, fuel=None, tag=None, st
     if bad:
         sel = bad[:40]
         rows = ["(%d, %s, %s)" % (i, results[i]["impl"]["coq"], impl_obs(results[i]["impl"])) for i in sel]
-        body = (PRELUDE + "Definition cases : list case := [\n" + ";\n".join(rows) + "].\n"
-                "Definition D := Eval vm_compute in details W init0 %s %s cases.\nPrint D.\n" % (fuel_t, cm))
+        body = (PRELUDE + base_def + "Definition cases : list case := [\n" + ";\n".join(rows) + "].\n"
+                "Definition D := Eval vm_compute in details W base %s %s cases.\nPrint D.\n" % (fuel_t, cm))
         rc, out = pv.coq_eval("cases_%s_details" % tag, body, timeout=1200)
         flat = " ".join(out.split())
         # (idx, (ObsVal "..", "out")) ...
@@ -95,8 +104,54 @@ def debug(progs, fuel="default_fuel"):
     reps = pv.harness("eval", [{"src": s, "coq": True} for s in progs])
     rows = ["(%d, %s, %s)" % (i, r["coq"], impl_obs(r)) for i, r in enumerate(reps) if r.get("coq")]
     body = (PRELUDE + "Definition cases : list case := [\n" + ";\n".join(rows) + "].\n"
-            "Definition D := Eval vm_compute in map (fun c => match c with (i,p,io) => (i, run_obs W init0 %s p) end) cases.\nPrint D.\n" % fuel)
+            "Definition D := Eval vm_compute in map (fun c => match c with (i,p,io) => (i, run_obs_from W (run_prelude W init0 %s []) %s p) end) cases.\nPrint D.\n" % (fuel, fuel))
     rc, out = pv.coq_eval("dbg", body)
     print(out[-6000:])
     for i, r in enumerate(reps):
         print(i, r["kind"], r.get("repr"), r.get("errk"), r.get("errmsg"), repr(r.get("out")))
+
+
+TRUSTED = [
+    "PanCore (coq/Core/Interp.v), hand-written model of evaluator/*.go and the Go built-ins of props/*.go it needs, tied by "
+    "vm_compute correspondence on every generated program (and on the repository's tests/*.pangaea corpus in C03)",
+    "translator ast2coq: the AST built by the real parser (parser.Parse) printed as a PanCore term; keyword arguments ordered by "
+    "their recorded source position",
+    "translator dumpworld -> gen/World.v, regenerated on every run from the running implementation: built-in objects, prototype "
+    "links, zero values, Go built-ins by name, native *.pangaea functions as PanCore syntax, global scope",
+    "harness eval (in-process parser.Parse + evaluator.Eval under recover), Python generators and search oracles"]
+ASSUME = ["the parser is trusted to produce the AST (C02/C16/C17 cover it)",
+          "programs that reach an unmodelled built-in or exhaust the model's fuel are discarded and counted under verdicts",
+          "FNV-64 symbol hash collisions are assumed away"]
+
+
+def conclude(chk, ok, broken, props_file, res, viol, model_only, prefix, corr):
+    """viol: list of (what, replay dict, klass) concrete failing inputs found by the direct oracle;
+    model_only: list of result dicts where only the model disagrees."""
+    chk.cov["verdicts"] = summarize(chk, res)
+    for t in TRUSTED:
+        if t not in chk.cov["trusted_base"]:
+            chk.cov["trusted_base"].append(t)
+    for a in ASSUME:
+        if a not in chk.assumptions:
+            chk.assumptions.append(a)
+    seen = set()
+    for what, replay, klass in viol:
+        if klass in seen:
+            continue
+        seen.add(klass)
+        chk.fail(what, replay, klass=klass)
+    if not viol and model_only:
+        r = model_only[0]
+        chk.fail("PanCore and the implementation disagree (%s) although the property's direct oracle accepts the implementation: %s"
+                 % (corr, r["src"][:200]),
+                 {"correspondence": corr, "program": r["src"], "model": r.get("model"),
+                  "impl": {k: r["impl"].get(k) for k in ("kind", "repr", "errk", "errmsg", "out")},
+                  "disagreeing_cases": len(model_only)}, no_input=True)
+    other = [r for r in res if r["verdict"] in ("panic", "nocoq")]
+    if other and not viol:
+        r = other[0]
+        chk.fail("generated program made the interpreter panic" if r["verdict"] == "panic" else "AST could not be translated",
+                 {"program": r["src"], "impl": r["impl"]}, klass=prefix + ":" + r["verdict"])
+    if not ok and not viol:
+        chk.fail(broken, {"theorem_file": "coq/" + props_file, "detail": broken}, no_input=True)
+    return chk.finish()
